@@ -461,6 +461,41 @@ func scenarioDuplicateOnTwoConnections(twoParts bool, bound int) *vh.SchedScenar
 	}}
 }
 
+// scenarioPollDuringValidation (C02): the last part of a file that was damaged in transit arrives
+// on one connection while the sender's poll for that file is answered on another. A positive
+// answer ('passed' or 'waiting') is final for the sender, so it may only be given for content
+// that is held validated in the end.
+func scenarioPollDuringValidation(bound int) *vh.SchedScenario {
+	return &vh.SchedScenario{Name: "poll-during-validation-of-a-damaged-file", Bound: bound, Build: func(x *vrt.Sched) func(*vrt.Sched) (string, string, string) {
+		files := []*sFile{{Key: "a1", Name: "a", Data: "AAAABBBB", Cuts: []int64{0, 4, 8}}}
+		sw := newSchedWorld(files)
+		sw.recv("a1", 0, true) // sequential prefix: part 0 arrives damaged
+		status := -1
+		x.Go("conn", func() { sw.recv("a1", 1, false) })
+		x.Go("poll", func() { status = sw.w.st.GetFileStatus("a", sw.ftime()) })
+		return func(x *vrt.Sched) (string, string, string) {
+			defer sw.close()
+			if x.Deadlock != "" || x.Diverged != "" {
+				return "", "", ""
+			}
+			final, log, stage := sw.finish()
+			if status == sts.ConfirmPassed || status == sts.ConfirmWaiting {
+				return fmt.Sprintf("the poll for a was answered %d (positive, final for the sender) although the only copy the receiver ever had was damaged in transit: final=%v log=%v staging=%v", status, final, log, stageNames(stage)), sw.class(), ""
+			}
+			return "", "", fmt.Sprintf("status=%d", status)
+		}
+	}}
+}
+
+func TestC02Sched(t *testing.T) {
+	b := 2
+	if vh.Thorough() {
+		b = 3
+	}
+	runSchedScenarios(t, "C02", "a poll answered while the file is being validated (E-SCHED)", []*vh.SchedScenario{scenarioPollDuringValidation(b)},
+		fmt.Sprintf("all interleavings with <= %d preemptions of the reception of the last part of a two-part file whose first part was damaged in transit (validation will fail) against a status poll for that file, with the stage's validators and finalizer: the poll must not be answered 'passed' or 'waiting'", b))
+}
+
 func TestC05Sched(t *testing.T) {
 	b := 1
 	if vh.Thorough() {
@@ -685,7 +720,7 @@ func TestSchedRace(t *testing.T) {
 	n := 40
 	for _, sc := range []*vh.SchedScenario{
 		scenarioTwoParts(false, 0), scenarioTwoParts(true, 0), scenarioTwoFiles(false, 0), scenarioTwoFiles(true, 0),
-		scenarioNewVersion(0), scenarioSupersededDuringLookup(0), scenarioChainTwoConnections(0), scenarioDuplicateOnTwoConnections(false, 0), scenarioDuplicateOnTwoConnections(true, 0), scenarioHeldVsNewVersion(0), scenarioCleanVsTransfer(false, 0), scenarioCleanVsTransfer(true, 0), scenarioRecoveryWindow(0),
+		scenarioNewVersion(0), scenarioPollDuringValidation(0), scenarioSupersededDuringLookup(0), scenarioChainTwoConnections(0), scenarioDuplicateOnTwoConnections(false, 0), scenarioDuplicateOnTwoConnections(true, 0), scenarioHeldVsNewVersion(0), scenarioCleanVsTransfer(false, 0), scenarioCleanVsTransfer(true, 0), scenarioRecoveryWindow(0),
 	} {
 		vh.FreeRunSched(t, rep, sc, n)
 	}
